@@ -27,9 +27,9 @@ KEEPINV = "self.enum_base == old(self).enum_base, self.struct_base == old(self).
 
 UNIT = Unit(
     name="U-TMONO",
-    properties=["C07", "C04"],
+    properties=["C07", "C04", "C03"],
     # the memo-before-descent discipline is C04's (a self-referential generic type must not recurse forever); the rest is C07's
-    clause_scope={"C04": {"only": ["map.has("]}, "C07": {"except": ["map.has("]}},
+    clause_scope={"C04": {"only": ["map.has("]}, "C07": {"except": ["map.has("]}, "C03": {"except": ["map.has("]}},
     rules=["attrs", "fmtmsg", "msg_to_string", ("strip", "tast::"), "iter_map_collect", "for_zip", "for_into_iter"],
     describe="mono::TypeMono: collapse_type_apps leaves no application of a generic enum/struct anywhere in the type (tuples, functions, arrays, "
              "references and vectors: fully specialised types); ensure_instance builds an instance by binding the definition's parameters to "
